@@ -31,6 +31,9 @@ def main():
     a = ap.parse_args()
     if a.what == "setup":
         return do_setup()
+    if a.what == "selftest":
+        import selftest
+        return selftest.run()
     tier = a.tier or common.tier_from_env()
     prop = a.what.upper()
     try:
